@@ -407,7 +407,27 @@ func checkC12(c *Check) {
 				c.Ob("R4", "the reservation removed is the one of the requested order", call.Pos(), eq, "")
 			}
 		}
-		c.Ob("R4", "exactly one removal site", run.Pos(), nrem == 1, "removal sites: "+itoa(nrem))
+		helperRem := 0
+		if nrem == 0 {
+			for _, h := range helpersOf(run) {
+				eachInstr(h, func(i ssa.Instruction) {
+					if call, ok := i.(*ssa.Call); ok && calleeFull(call) == "builtin.append" && len(call.Call.Args) == 2 {
+						_, s0 := call.Call.Args[0].(*ssa.Slice)
+						_, s1 := call.Call.Args[1].(*ssa.Slice)
+						if s0 && s1 {
+							helperRem++
+						}
+					}
+				})
+			}
+		}
+		if nrem == 0 && helperRem > 0 {
+			// the release case was moved into a new helper that hands the shortened list back: the rules above are
+			// written for the in-loop form and do not decide this one
+			c.Info("R4", "the removal sits in a new helper of the loop function: single-removal rules not decided", run.Pos(), "")
+		} else {
+			c.Ob("R4", "exactly one removal site", run.Pos(), nrem == 1, "removal sites: "+itoa(nrem))
+		}
 		// not found -> error reply
 		nf := false
 		eachInstr(run, func(i ssa.Instruction) {
